@@ -103,3 +103,43 @@ def write_file(path, traj):
     """Save through Trajectory.save (dtr refuses an existing directory; caller provides a fresh path)."""
     traj.save(path)
     return path
+
+
+# ------------------------------------------------------------------------------------------------------------------
+# DCD files as OTHER programs write them (mdtraj's own writer never produces these, but its reader must handle them):
+#   * CHARMM 4-dimensional dynamics: header flag icntrl[11] = 1 and a 4th coordinate block after X, Y, Z of each frame
+#   * a header whose frame count NSET was never patched (0) — left by writers that do not go back to the header, or by a
+#     writer killed before its final update; readers then derive the count from the file size
+import struct as _struct
+
+
+def dcd_make_4d(src, dst, n_atoms, n_frames):
+    raw = open(src, "rb").read()
+    assert _struct.unpack("<i", raw[:4])[0] == 84 and raw[4:8] == b"CORD"
+    icntrl = list(_struct.unpack("<20i", raw[8:88]))
+    assert icntrl[10] == 0, "source must not carry a unit cell block"
+    icntrl[11] = 1
+    pos = 92
+    title_len = _struct.unpack("<i", raw[pos:pos + 4])[0]
+    pos += 4 + title_len + 4
+    assert _struct.unpack("<3i", raw[pos:pos + 12]) == (4, n_atoms, 4)
+    pos += 12
+    header = raw[:8] + _struct.pack("<20i", *icntrl) + raw[88:pos]
+    block = 4 + 4 * n_atoms + 4
+    assert len(raw) - pos == 3 * block * n_frames
+    out = [header]
+    marker = _struct.pack("<i", 4 * n_atoms)
+    for k in range(n_frames):
+        out.append(raw[pos:pos + 3 * block])
+        out.append(marker + np.full(n_atoms, 1000.0 + k, dtype="<f4").tobytes() + marker)
+        pos += 3 * block
+    with open(dst, "wb") as f:
+        f.write(b"".join(out))
+
+
+def dcd_set_nset(path, value=0):
+    with open(path, "r+b") as fh:
+        head = fh.read(12)
+        assert _struct.unpack("<i", head[:4])[0] == 84 and head[4:8] == b"CORD"
+        fh.seek(8)
+        fh.write(_struct.pack("<i", int(value)))
